@@ -33,7 +33,7 @@ CHECKS = [
              "requests, re-requests, releases by message and API and save/load cycles, for five pre-filled tables, plus a sweep of a "
              "request through every one of the 155 relay addresses of level 1..3 with empty / nearly full / full parents, and a "
              "sweep of a second request arriving while the master waits for the NETWORK_ACK of a routed reply, are enumerated; Hypothesis draws ids 1..255 and histories to 14 events, and tables of 0..255 entries for persistence; the "
-             "lease-table invariants of the statement are evaluated on dhcp_dict after every event, and every copy of a reply on air must agree; a sweep 'relay full, a new ID refused, one child released by message / API, another new ID must be served' over all 155 relays and the master",
+             "lease-table invariants of the statement are evaluated on dhcp_dict after every event, and every copy of a reply on air must agree; a sweep 'relay full, a new ID refused, one child released by message / API, another new ID must be served' over all 155 relays and the master; requests of one ID keep one frame id, the refused ID asks again after the release",
      "design_ref": "4/C16", "note": SIM_NOTE + "; weak liveness (a request with a free slot is answered) is assumed as part of 'a released address becomes available again'",
      "technique": "model-based property testing: bounded-exhaustive event words + Hypothesis histories with lease-table invariants checked after every event"},
     {"property_id": "C14", "level": "exploration",
@@ -44,7 +44,7 @@ CHECKS = [
              "multicast; after quiescence all "
              "queues are compared with the reference set of level members, the air log is checked for the level address, single "
              "attempts, absence of ACK packets, relay re-broadcasts and the set of levels a relayed message may reach; an enumerated frame-by-frame "
-             "scenario injects plain frames and fragments of longer multicasts into a level 1..3 relay (each re-broadcast once, byte for byte, to the next level); schedules are sampled; a child's unicast landing in a member's RX FIFO together with the multicast; every case starts from a drawn value of the 16-bit frame-id counter",
+             "scenario injects plain frames and fragments of longer multicasts into a level 1..3 relay (each re-broadcast once, byte for byte, to the next level); schedules are sampled; a child's unicast landing in a member's RX FIFO together with the multicast; every case starts from a drawn value of the 16-bit frame-id counter; the multicast follows another node's fragmented multicast that lost its last fragment",
      "design_ref": "4/C14", "note": SIM_NOTE + "; a receiver whose 3-level RX FIFO was overrun by an unacknowledged fragment burst is "
      "not judged for reception (counted); relay multiplicity scoped as in DESIGN 4/C14",
      "technique": "enumeration of sender-class x level + Hypothesis-generated populated topologies on the multi-node simulation, set-equality oracle over all queues and the air log"},
@@ -55,7 +55,7 @@ CHECKS = [
              "multicast_level overrides on every node, header objects carrying a stale origin, 24-byte messages, a sender whose own queue holds 0..9 unread frames; "
              "Hypothesis draws routes over the whole address space, types 0..255, timeouts, MCU timing models, bystanders and faults "
              "beyond it; originators and addressees of type-193 frames, the arrival time of the NETWORK_ACK at the origin's chip and "
-             "the duration of write() are taken from the medium's ground-truth log; the same frame object written once or twice before the judged write; every case starts from a drawn value of the 16-bit frame-id counter",
+             "the duration of write() are taken from the medium's ground-truth log; the same frame object written once or twice before the judged write; every case starts from a drawn value of the 16-bit frame-id counter; the type assigned as a one-character str after construction",
      "design_ref": "4/C13", "note": SIM_NOTE + "; arrivals within +-(2 ms + 40 SPI transactions) of the deadline are labelled ambiguous and not judged",
      "technique": "fault-position enumeration + Hypothesis-generated routes/timeouts on the multi-node simulation, oracle from the ground-truth air log"},
     {"property_id": "C05", "level": "exploration",
@@ -65,7 +65,7 @@ CHECKS = [
              "multicast_level overrides; after each message the network is left to become quiescent, all queues are compared with "
              "what was sent and every frame a router took from the air must have been forwarded; routers with allow_multicast off, re-addressed and power-cycled "
              "nodes, a failed write to an address nobody holds as history before a message, and queues read only at the end with frame ids colliding between origins (enumerated + drawn); schedules are sampled "
-             "(seeded timing models), so an interleaving that needs a particular sub-millisecond alignment can be missed",
+             "(seeded timing models), so an interleaving that needs a particular sub-millisecond alignment can be missed; direct fragmented messages to a slow destination and to one whose application is busy for 30..90 ms (fragments refused at radio level, software retries)",
      "design_ref": "4/C05", "note": SIM_NOTE + "; loss-free medium with first-locked-wins on overlap; one open known finding "
      "(pipelined fragments, DESIGN 5.3) is excluded by signature and counted",
      "technique": "property-based testing: Hypothesis-generated topologies/messages/timing models on a multi-node discrete-event simulation, delivery oracle over all queues"},
@@ -96,7 +96,7 @@ CHECKS = [
              "bit flip of valid packets, CRC-valid packets with adversarial AD areas, random 32-byte payloads, and an "
              "atheris/libFuzzer campaign with the oracle in the target; the reference parser decides which payloads are consistent "
              "packets, decoded values are compared with what was advertised, available() must never raise, read() order is checked, and "
-             "a second FakeBLE object on a radio of its own must never report an element",
+             "a second FakeBLE object on a radio of its own must never report an element; a scanner that also advertises with elements queued",
      "design_ref": "4/C19", "note": "trusted base: vlib/ref/ble.py and the simulator; temperature float tolerance 0.01 (encoder truncates to 1/100)",
      "technique": "property-based testing: round-trip + differential against independent BLE encoder/parser, exhaustive bit-flip enumeration, coverage-guided fuzzing (atheris)"},
     {"property_id": "C15", "level": "exploration",
@@ -139,7 +139,7 @@ CHECKS = [
              "enumerated; calls that FakeBLE rejects with NotImplementedError as FakeBLE ops; Hypothesis-generated interleavings of 3..12 with-blocks of 2..3 objects (RF24, FakeBLE, RF24Network, RF24Mesh in any "
              "mix) sharing one simulated radio, each block running drawn configuration calls; for every re-entry the chip's "
              "complete configuration register file is compared with the snapshot taken at the end of that object's previous "
-             "block, and PWR_UP/CE are checked after every __exit__; exhaustive only for the stated alphabets",
+             "block, and PWR_UP/CE are checked after every __exit__; exhaustive only for the stated alphabets; every third block is left through an exception",
      "design_ref": "4/C09", "note": SIM_NOTE + "; the oracle is a relation between two chip snapshots, no model of the individual setters is needed",
      "technique": "property-based testing: enumerated class-pair/call combinations + Hypothesis-generated multi-object with-block interleavings, metamorphic snapshot-equality oracle"},
     {"property_id": "C10", "level": "exploration",
@@ -148,7 +148,7 @@ CHECKS = [
              "keyword), a second radio with its own driver object polled before every accessor, and Hypothesis op lists mixing traffic (peer sends to any pipe, write/CE/send to listening, absent or ACK-payload peers, "
              "load_ack, role toggles) with every accessor in all its argument forms, in dynamic / static per-pipe / mixed payload "
              "modes; each accessor is compared with the simulated chip's FIFOs, latched flags, STATUS byte of the last "
-             "transaction, retransmission count in the air log and IRQ pin; exhaustive only for the stated words; on plus and non-plus chips",
+             "transaction, retransmission count in the air log and IRQ pin; exhaustive only for the stated words; on plus and non-plus chips, warm-started chips; the non-blocking write() flow is part of the enumerated alphabet",
      "design_ref": "4/C10", "note": SIM_NOTE + "; the executor lets radio activity finish before each op so no event races an accessor",
      "technique": "property-based testing: bounded-exhaustive op words + Hypothesis-generated traffic/accessor histories against simulated-chip ground truth"},
     {"property_id": "C20", "level": "exploration",
@@ -162,14 +162,14 @@ CHECKS = [
              "the received sequence, pipe, any(), the W_TX_PAYLOAD bytes on the SPI bus and the caller's buffers are compared "
              "with the documented padding/truncation/rejection rule; plus ping-pong exchanges (both ends switch roles; the answer read at once or only after the next "
              "send_only send), write() as a call form, calls during which the peer is deaf, configuration pre-histories and call "
-             "orders, per-pipe payload modes (int / list / tuple forms), enumerated write(write_only=True) bursts with CE raised by the application, ACK payloads left over at a role swap, and long lists (4..12 payloads) with a receiver task draining the FIFO concurrently; sampled inputs, no exhaustiveness claimed; on plus and non-plus chips",
+             "orders, per-pipe payload modes (int / list / tuple forms), enumerated write(write_only=True) bursts with CE raised by the application, ACK payloads left over at a role swap, and long lists (4..12 payloads) with a receiver task draining the FIFO concurrently; sampled inputs, no exhaustiveness claimed; on plus and non-plus chips, cold and warm-started chips, each radio on its own spidev object or both on one host's shared spidev object",
      "design_ref": "4/C01", "note": SIM_NOTE,
      "technique": "property-based testing (Hypothesis composite generator) with a documented-rule oracle on a simulated link"},
     {"property_id": "C03", "level": "exploration",
      "text": "model-based: all ordered pairs (quick) / triples (thorough) of 104 boundary configuration calls, each followed by a "
              "with-block re-entry and an all-getters step, plus Hypothesis call lists to length 40 with in- and out-of-domain "
              "arguments; after every call the chip's complete register file, its reserved/illegal-write log, the outcome kind and "
-             "the getters are compared with a register model written from the documentation; exhaustive only for the stated call list",
+             "the getters are compared with a register model written from the documentation; exhaustive only for the stated call list; every word of 3..4 (thorough 5) calls that share FEATURE / EN_AA / DYNPD; a third of the generated histories construct the driver on a warm-started chip",
      "design_ref": "4/C03", "note": SIM_NOTE + "; vlib/ref/regs.py is the specification of the documented encodings",
      "technique": "model-based property testing: bounded-exhaustive call pairs/triples + Hypothesis call sequences vs register reference model"},
     {"property_id": "C08", "level": "exploration",
@@ -178,7 +178,7 @@ CHECKS = [
              "for address widths 3..5, Hypothesis "
              "sequences to length 40 beyond; registers after every call are compared with the reference model of the user's "
              "pipe 0, CE/role-change discipline is read from the chip trace, and each sequence ends with a behavioural probe "
-             "(packet to the user's address / send() to a listening peer); calls the driver refuses (pipe 6 / -1, empty address) are part of the alphabet: nothing may change, CE included",
+             "(packet to the user's address / send() to a listening peer); calls the driver refuses (pipe 6 / -1, empty address) are part of the alphabet: nothing may change, CE included; sleep / wake cycles at every position of the core sequences; a probe 'send() after returning to TX mode' for sequences without a pipe-0 reading address",
      "design_ref": "4/C08", "note": SIM_NOTE,
      "technique": "bounded-exhaustive call-sequence enumeration + Hypothesis sequences vs reference model, with on-air probes"},
     {"property_id": "C02", "level": "fault_enumeration",
@@ -188,7 +188,7 @@ CHECKS = [
              "symbols, 1..6 calls incl. list input) beyond it; with read() / listen round trips (also with an uncollected ACK payload) / with-block re-entry / a clear-the-flags step (CE low, clear_status_flags(), update()) between calls, on plus and non-plus chips, neutral configuration pre-histories and "
              "short TX addresses after a pipe-0 history; each call's result, attempt count, duration and every on-air payload are "
              "judged against the medium's ground-truth log (an ACK the peer sent but the driver's own pipe-0 state made "
-             "inaudible counts as acknowledged)",
+             "inaudible counts as acknowledged); cold and warm-started chips, own or shared spidev object",
      "design_ref": "4/C02", "note": SIM_NOTE,
      "technique": "fault-sequence enumeration + Hypothesis-generated call histories against the simulator's ground-truth air log"},
     {"property_id": "C12", "level": "exploration",
